@@ -27,6 +27,9 @@ type (
 		mu              sync.Mutex
 		f               http.Flusher
 		keepAliveTicker *time.Ticker
+		// closed is set, under mu, when Do returns: the keep-alive goroutine must not touch
+		// the ResponseWriter after that
+		closed bool
 	}
 )
 
@@ -56,7 +59,7 @@ func (t SSE) Do(w http.ResponseWriter, r *http.Request, exec graphql.GraphExecut
 		f:   flusher,
 	}
 
-	defer c.flush()
+	defer c.close()
 
 	w.Header().Set("Cache-Control", "no-cache")
 	w.Header().Set("Connection", "keep-alive")
@@ -111,7 +114,7 @@ func (t SSE) Do(w http.ResponseWriter, r *http.Request, exec graphql.GraphExecut
 
 	if opErr != nil {
 		resp := exec.DispatchError(ctx, opErr)
-		writeJsonWithSSE(w, resp)
+		c.write(func() { writeJsonWithSSE(w, resp) })
 	} else {
 		responses, ctx := exec.DispatchOperation(ctx, rc)
 		for {
@@ -119,14 +122,29 @@ func (t SSE) Do(w http.ResponseWriter, r *http.Request, exec graphql.GraphExecut
 			if response == nil {
 				break
 			}
-			writeJsonWithSSE(w, response)
-			c.flush()
+			c.write(func() { writeJsonWithSSE(w, response) })
 
 			c.resetTicker(t.KeepAlivePingInterval)
 		}
 	}
 
-	fmt.Fprint(w, "event: complete\n\n")
+	c.write(func() { fmt.Fprint(w, "event: complete\n\n") })
+}
+
+// write runs f, which writes to the ResponseWriter, and flushes, excluding the keep-alive
+// goroutine for that time: the ResponseWriter is not safe for concurrent use.
+func (c *sseConnection) write(f func()) {
+	c.mu.Lock()
+	defer c.mu.Unlock()
+	f()
+	c.f.Flush()
+}
+
+func (c *sseConnection) close() {
+	c.mu.Lock()
+	defer c.mu.Unlock()
+	c.closed = true
+	c.f.Flush()
 }
 
 func (c *sseConnection) resetTicker(interval time.Duration) {
@@ -144,8 +162,12 @@ func (c *sseConnection) keepAlive(w io.Writer) {
 			c.keepAliveTicker.Stop()
 			return
 		case <-c.keepAliveTicker.C:
-			fmt.Fprintf(w, ": ping\n\n")
-			c.flush()
+			c.mu.Lock()
+			if !c.closed {
+				fmt.Fprintf(w, ": ping\n\n")
+				c.f.Flush()
+			}
+			c.mu.Unlock()
 		}
 	}
 }
